@@ -46,6 +46,9 @@ THEOREMS = [
     "SleapVerif.C09.lq_track_output_complete",
     "SleapVerif.C09.lq_track_ids_distinct_in_frame",
     "SleapVerif.C09.lq_history",
+    "SleapVerif.C09.model_cost_colPattern",
+    "SleapVerif.C09.nan_row_model_divergence",
+    "SleapVerif.C09.nan_track_counterexample",
     "SleapVerif.C09.anyrow_counterexample_fw",
     "SleapVerif.C09.anyrow_counterexample_lq",
     "SleapVerif.C09.lqlist_counterexample",
@@ -86,6 +89,12 @@ def make_instance(det):
         pts = _np.array([[x, y], [x, y + sz], [x, y + sz / 2]], dtype=float)
     elif pose == "single":   # one visible keypoint: 1×1 box
         pts = _np.array([[x, y], [nan, nan], [nan, nan]], dtype=float)
+    elif pose == "allnan":   # no visible keypoint at all: every association score is NaN
+        pts = _np.array([[nan, nan]] * 3, dtype=float)
+    elif pose.startswith("skew"):   # positive-area pose without axis-aligned legs; skew_mK = keypoint K missing
+        pts = _np.array([[x, y], [x + sz, y + 2], [x + 3, y + sz]], dtype=float)
+        if pose.startswith("skew_m"):
+            pts[int(pose[-1])] = nan
     else:
         pts = _np.array([[x, y], [x + sz, y], [x, y + sz]], dtype=float)
     return _sio.PredictedInstance.from_numpy(pts, _skel, point_scores=_np.ones(3), score=float(score))
@@ -258,7 +267,17 @@ def render_image(case, f):
                     yy, xx = yi + dy, xi + dx
                     if 0 <= yy < IMG and 0 <= xx < IMG:
                         img[yy, xx] = max(img[yy, xx], 255.0 - 30.0 * (abs(dx) + abs(dy)) - 10 * k)
-    return img.astype("uint8")[:, :, None]
+    img = img.astype("uint8")[:, :, None]
+    mode = case.get("img_mode", "u8")      # the `_preprocess_imgs` branches of FlowShiftTracker
+    if mode == "f32":
+        return img.astype("float32")
+    if mode == "hw":
+        return img[:, :, 0]
+    if mode == "1hw1":
+        return img[None]
+    if mode == "hw3":
+        return _np.repeat(img, 3, axis=2)
+    return img
 
 
 def run_impl(case):
@@ -441,7 +460,9 @@ def compare_frame(case, fr, mo):
             for a, b in zip(mine, theirs):
                 if a is None:
                     continue
-                if abs(float(a) - b) > TOL * max(1.0, abs(b)):
+                # relative comparison in exact arithmetic (values may be ~1e-90: an absolute floor is vacuous)
+                # (+1e-300: sums of denormals lose relative precision)
+                if b != b or abs(a - Fraction(b)) > Fraction(TOL) * abs(Fraction(b)) + Fraction(1, 10 ** 300):
                     diffs.append("reduction")
                     break
         # which stored features were scored, in call order, per detection
@@ -467,7 +488,7 @@ def compare_frame(case, fr, mo):
                 mine = (int(toks[0]), int(toks[1]), [None if t == "nan" else Fraction(t) for t in toks[2:]])
             theirs = (cmc.shape[0], cmc.shape[1],
                       [None if (x != x or math.isinf(x)) else Fraction(float(x)) for x in cmc.reshape(-1)])
-            if mine != theirs and not (mine is not None and mine[0] == theirs[0] == 0):
+            if mine != theirs and not (mine is not None and len(mine[2]) == len(theirs[2]) == 0):
                 diffs.append("matcher-input")
     elif mo["shape"] != "nomat" and fr["res"] == "ok":
         diffs.append("shape")
@@ -509,6 +530,8 @@ def feature_score_lines(case, frames, max_scores=80):
                 fb = frames[b[0]]["feats"][b[1]][1]
             except (IndexError, KeyError):
                 continue
+            if any(x != x for x in list(fa) + list(fb)) or v != v:
+                continue        # NaN feature / score: outside the modelled (total) scores, see F-C09d
             if sc == "iou" and feat == "bboxes":
                 lines.append("iou " + " ".join(rat(float(x)) for x in list(fa) + list(fb)))
                 meta.append(("iou", f, (a, b), v))
@@ -587,6 +610,14 @@ def signatures(case, frames, bad):
     if what.startswith("raise:ValueError") and fr["pre_stale"] and (
             "infeasible" in what or "zero-size" in what):
         sigs.append("stale_track_no_candidate")
+    # F-C09d: a detection without any visible keypoint (all association scores NaN) was seen up to the
+    # failing frame, and the failure is the one NaN scores cause (scipy infeasible / dropped / untracked)
+    if (has_allnan(case, f) or case["cfg"].get("use_flow")) and (what in ("dropped", "untracked") or
+                                (what.startswith("raise:ValueError") and "infeasible" in what)):
+        nan_seen = any(v != v for fr2 in frames[:f + 1] for _, _, v in fr2["table"]) or \
+            any(_np.isnan(val).all() for fr2 in frames[:f + 1] for _, val in fr2.get("feats", []))
+        if nan_seen:
+            sigs.append("nan_association_score")
     return sigs
 
 
@@ -603,13 +634,22 @@ def all_configs():
 
 
 DEGENERATE = ["hline", "vline", "single"]
+PARTIAL = ["skew", "skew_m0", "skew_m1", "skew_m2"]     # missing nodes, still a positive-area pose
+EXTRA_PAIRS = [("keypoints", "euclidean_dist")]          # off-diagonal feature/score pair that works in /repo
 
 
-def gen_case(rng, cfg=None, max_animals=5, max_frames=12, degenerate=None):
+def has_allnan(case, upto=None):
+    fr = case["frames"] if upto is None else case["frames"][:upto + 1]
+    return any(len(d) > 5 and d[5] == "allnan" for dets in fr for d in dets)
+
+
+def gen_case(rng, cfg=None, max_animals=5, max_frames=12, degenerate=None, nan_scores=False):
     cfg = dict(cfg or rng.choice(all_configs()))
-    cfg["window_size"] = rng.choice([1, 2, 3, 5])
+    if rng.random() < 0.06 and not nan_scores and degenerate is None and cfg["features"] == "keypoints":
+        cfg["scoring_method"] = "euclidean_dist"       # off-diagonal pair (full poses only: NaN-free)
+    cfg["window_size"] = rng.choice([1, 2, 3, 5, 1, 2, 3, 5, 4, 8])
     cfg["instance_score_threshold"] = rng.choice([0.0, 0.0, 0.5])
-    K = rng.choice([1, 1, 2, 2, 3, 3, 4, 5][:max(1, 2 * max_animals - 2)] or [1])
+    K = rng.choice([1, 1, 2, 2, 3, 3, 4, 5, 6, 7][:max(1, 2 * max_animals - 2)] or [1])
     K = min(K, max_animals)
     F = rng.randint(2, max_frames)
     style = rng.choice(["lattice", "lattice", "close", "coincident"])
@@ -620,6 +660,18 @@ def gen_case(rng, cfg=None, max_animals=5, max_frames=12, degenerate=None):
         poses = [rng.choice(DEGENERATE + ["tri"]) for _ in range(K)]
         for a in range(min(K, 2)):
             poses[a] = rng.choice(DEGENERATE)
+    elif nan_scores:
+        # F-C09d region: some detections have no visible keypoint (every score NaN); oracle only
+        poses = [rng.choice(["tri", "tri", "skew", "allnan"]) for _ in range(K)]
+        poses[rng.randrange(K)] = "allnan"
+    elif (cfg["scoring_method"] in ("oks", "euclidean_dist") and cfg["features"] != "bboxes"
+          and not (cfg["features"] == "keypoints" and cfg["scoring_method"] == "euclidean_dist")
+          and degenerate is None and rng.random() < 0.4):
+        # missing nodes on a positive-area pose: nan-aware feature extraction (nanmedian, OKS masks)
+        poses = [rng.choice(PARTIAL) for _ in range(K)]
+    family = None
+    if poses:
+        family = "nan_scores" if nan_scores else ("degenerate_pose" if cfg["features"] == "bboxes" else "partial_nan")
     pos = []
     for a in range(K):
         if style == "lattice":
@@ -630,7 +682,12 @@ def gen_case(rng, cfg=None, max_animals=5, max_frames=12, degenerate=None):
             pos.append([8.0, 8.0] if a < 2 else [rng.randrange(0, 640) / 16, rng.randrange(0, 640) / 16])
     p_present = rng.choice([1.0, 0.9, 0.7, 0.5])
     late = {a: (rng.randint(0, F - 1) if rng.random() < 0.3 else 0) for a in range(K)}
-    gone = {a: (rng.randint(1, F) if rng.random() < 0.2 else F + 1) for a in range(K)}
+    gone = {a: (rng.randint(1, F) if rng.random() < (0.5 if K >= 2 else 0.2) else F + 1) for a in range(K)}
+    if K >= 2 and rng.random() < 0.3:
+        # stale-track bias: short window, every animal but one leaves for longer than the window
+        cfg["window_size"] = rng.choice([1, 2])
+        gone = {a: (rng.randint(1, max(1, F - 2)) if a else F + 1) for a in range(K)}
+        p_present = 1.0
     frames = []
     for f in range(F):
         dets = []
@@ -646,10 +703,13 @@ def gen_case(rng, cfg=None, max_animals=5, max_frames=12, degenerate=None):
                 if poses is None:
                     dets.append([pos[a][0], pos[a][1], sc, a])
                 else:
-                    dets.append([pos[a][0], pos[a][1], sc, a, 3 + (a % 3), poses[a]])
+                    pose = poses[a]
+                    if nan_scores and pose != "allnan" and rng.random() < 0.15:
+                        pose = "allnan"          # an animal that is sometimes detected without keypoints
+                    dets.append([pos[a][0], pos[a][1], sc, a, 3 + (a % 3), pose])
         rng.shuffle(dets)
         frames.append(dets)
-    return {"cfg": cfg, "frames": frames, **({"family": "degenerate_pose"} if poses else {})}
+    return {"cfg": cfg, "frames": frames, **({"family": family} if family else {})}
 
 
 def gen_flow_case(rng, cfg=None):
@@ -660,8 +720,13 @@ def gen_flow_case(rng, cfg=None):
     cfg["use_flow"] = True
     cfg["window_size"] = rng.choice([1, 2, 3])
     cfg["instance_score_threshold"] = rng.choice([0.0, 0.0, 0.5])
+    if rng.random() < 0.4:
+        cfg["of_img_scale"] = rng.choice([0.5, 2.0])
+    if rng.random() < 0.25:
+        cfg["of_window_size"], cfg["of_max_levels"] = 11, 1
     K = rng.choice([1, 2, 2, 3])
     F = rng.randint(3, 8)
+    leaves = rng.random() < 0.2      # an animal walks out of the image: optical flow loses its keypoints
     base = [(24, 24), (88, 30), (40, 90)]
     pos = [[base[a][0] + rng.randrange(0, 32) / 16, base[a][1] + rng.randrange(0, 32) / 16] for a in range(K)]
     gone = {a: (rng.randint(1, F - 1) if rng.random() < 0.45 else F + 1) for a in range(K)}
@@ -675,11 +740,15 @@ def gen_flow_case(rng, cfg=None):
             pos[a][0] += rng.randrange(-32, 33) / 16
             pos[a][1] += rng.randrange(-32, 33) / 16
             absent = gone[a] <= f < gone[a] + cfg["window_size"] + rng.choice([0, 1])
-            if not absent and rng.random() < 0.9:
+            if leaves and a == K - 1 and absent:
+                # still detected, but far outside the 128×128 image
+                dets.append([300.0 + f, 300.0, rng.choice([0.9, 0.75]), a, 10])
+            elif not absent and rng.random() < 0.9:
                 dets.append([pos[a][0], pos[a][1], rng.choice([0.9, 0.9, 0.75, 0.25]), a, 10])
         rng.shuffle(dets)
         frames.append(dets)
-    return {"cfg": cfg, "frames": frames, "img_seed": rng.randrange(1000), "family": "flow"}
+    return {"cfg": cfg, "frames": frames, "img_seed": rng.randrange(1000), "family": "flow",
+            "img_mode": rng.choice(["u8", "u8", "f32", "hw", "1hw1", "hw3"])}
 
 
 def case_key(case, frames):
@@ -695,6 +764,9 @@ def case_tags(case, frames):
             "red_" + cfg["scoring_reduction"], f"window_{cfg['window_size']}"]
     if cfg.get("use_flow"):
         tags.append("use_flow")
+        tags.append("flow_img_" + case.get("img_mode", "u8"))
+        if cfg.get("of_img_scale"):
+            tags.append("flow_img_scale")
     if any(len(d) == 0 for d in case["frames"]):
         tags.append("has_empty_frame")
     if case.get("family"):
@@ -734,9 +806,17 @@ WITNESS = {
                           + [[_d(A, 0), _d(B, 1), _d(C, 2)]]},
                {"cfg": wcfg(window_size=3, scoring_reduction="max", track_matching_method="greedy"),
                 "frames": [[_d(A, 0), _d(B, 1), _d(C, 2)]] + [[_d(A, 0), _d(B, 1)]] * 4}],
+    # F-C09d: a detection without visible keypoints among others (Hungarian: infeasible), and as the first
+    # detection ever (its NaN track blocks every later detection)
+    "F-C09d": [{"cfg": wcfg(window_size=3, features="centroids", scoring_method="euclidean_dist"),
+                "frames": [[_d(A, 0) + [3, "tri"], _d(B, 1) + [3, "tri"]],
+                           [_d(A, 0) + [3, "tri"], _d(B, 1) + [3, "allnan"]]]},
+               {"cfg": wcfg(window_size=3, features="bboxes", scoring_method="iou",
+                            candidates_method="local_queues", track_matching_method="greedy"),
+                "frames": [[_d(A, 0) + [3, "allnan"]], [_d(A, 0) + [3, "tri"]], [_d(A, 0) + [3, "tri"]]]}],
 }
 WSIG = {"F-C09a": "lone_match_index0", "F-C09b": "lq_unmatched_detection",
-        "F-C09c": "stale_track_no_candidate"}
+        "F-C09c": "stale_track_no_candidate", "F-C09d": "nan_association_score"}
 
 
 def replay_witnesses(chk, pid_map=None):
@@ -757,6 +837,7 @@ def replay_witnesses(chk, pid_map=None):
         target = (pid_map or {}).get(fid_, fid_)
         if target is not None:
             chk.known_replay(target, still_fails=fails, detail="; ".join(details))
+    chk.extra["nan_scores_fix_detected"] = flags.get("F-C09d")
     return (flags["F-C09a"], flags["F-C09b"], flags["F-C09c"])
 
 
@@ -835,7 +916,12 @@ def process(chk, cases, fixes, name="tracker step (ids, output, queue state, sco
                     chk.tag("argsort_validated")
         first = None
         flow_nan = case["cfg"].get("use_flow") and any(fr.get("nonfinite_score") is not None for fr in frames)
-        if flow_nan:
+        if has_allnan(case):
+            # a detection without visible keypoints: NaN scores are outside the model's total scores
+            # (excluded region of the theorems, F-C09d); judged by the oracle only
+            flow_nan = True
+            chk.tag("nan_score_oracle_only")
+        elif flow_nan:
             # optical flow lost every keypoint of a stored instance (NaN score): outside the model's total
             # scores; such a history is judged by the oracle only
             chk.tag("flow_nan_score_oracle_only")
@@ -934,7 +1020,12 @@ def main(chk):
         if cfg["features"] == "bboxes":
             cases.append(gen_case(chk.rng, cfg=cfg, max_frames=8, degenerate=True))
     for _ in range(chk.n(500, 6000)):
-        cases.append(gen_case(chk.rng))
+        cases.append(gen_case(chk.rng, max_animals=5 if not chk.thorough else 7))
+    # detections without any visible keypoint (NaN scores): every configuration once + random; oracle only
+    for cfg in cfgs:
+        cases.append(gen_case(chk.rng, cfg=cfg, max_frames=6, nan_scores=True))
+    for _ in range(chk.n(40, 600)):
+        cases.append(gen_case(chk.rng, nan_scores=True))
     # the optical-flow tracker (second implementation of the same contract): every configuration once
     # + random; the flow shift is external, its recorded scores are fed to the same model
     for cfg in cfgs:
